@@ -142,6 +142,9 @@ MACHINES = [M_RES, M_ORTHO, M_NEST, M_SEL]
 KIND_NAMES = {0: 'change', 1: 'restart', 2: 'resume', 3: 'select', 4: 'utilize', 5: 'randomize', 6: 'schedule'}
 STEP_CARRIERS = [r'R_<.*>::processTransitions', r'R_<.*>::applyRequest', r'RegistryT<.*>::requestImmediate', r'C_<.*>::deepChangeToRequested', r'C_<.*>::deepForwardActive',
                  r'S_<.*>::deepEnter', r'S_<.*>::deepExit', r'C_<.*>::deepEnter', r'C_<.*>::deepExit', r'R_<.*>::approvedByGuards']
+def ortho_direct(m, d):
+    """delimiting predicate of finding KF-C02-ortho-sibling-reset: the destination is a direct sub-state of an orthogonal region"""
+    return ['ortho-direct'] if m.parents[d] >= 0 and m.kinds[m.parents[d]] == 'O' else []
 def machine_jobs(m, kinds=(0, 1, 2), upd_kinds_quick=(0, 2, 6), upd_kinds=(0, 1, 2, 6), tier='quick', q2_tier='thorough'):
     base = dict(tu=m.tu, defs=m.defs, unwind=m.unwind, objbits=12, timeout=900)
     for e in ('proof_init', 'proof_exit_enter', 'proof_reset', 'proof_cfg_count'):
@@ -149,7 +152,7 @@ def machine_jobs(m, kinds=(0, 1, 2), upd_kinds_quick=(0, 2, 6), upd_kinds=(0, 1,
             carriers=[r'R_<.*>::initialEnter', r'R_<.*>::finalExit'] if e == 'proof_init' else [], case_key='%s/%s' % (m.name, e[6:]), **base)
     for k in kinds:
         for d in range(1, m.n):
-            job(id='C.%s.imm.%s.d%d' % (m.name, KIND_NAMES[k], d), entry='step_immediate', key=[k, d], props=['C01', 'C02', 'C03', 'C04', 'C13', 'C11'], tier=tier, carriers=STEP_CARRIERS,
+            job(id='C.%s.imm.%s.d%d' % (m.name, KIND_NAMES[k], d), entry='step_immediate', key=[k, d], props=['C01', 'C02', 'C03', 'C04', 'C13', 'C11'], tier=tier, carriers=STEP_CARRIERS, tags=ortho_direct(m, d),
                 case_key='%s/immediate/%s/dest=%d' % (m.name, KIND_NAMES[k], d), **base)
     ncfg = m.count(0)
     for c in range(ncfg):
@@ -161,7 +164,7 @@ def machine_jobs(m, kinds=(0, 1, 2), upd_kinds_quick=(0, 2, 6), upd_kinds=(0, 1,
             if i == 0 and not m.root_stub: continue
             for k in upd_kinds:
                 for d in range(1, m.n):
-                    job(id='C.%s.upd.c%d.i%d.%s.d%d' % (m.name, c, i, KIND_NAMES[k], d), entry='step_update', key=[c, i, k, d], props=['C01', 'C02', 'C03', 'C04'], quick_for=['C02'],
+                    job(id='C.%s.upd.c%d.i%d.%s.d%d' % (m.name, c, i, KIND_NAMES[k], d), entry='step_update', key=[c, i, k, d], props=['C01', 'C02', 'C03', 'C04'], quick_for=['C02'], tags=ortho_direct(m, d),
                         tier=tier if (i == deepest and k in upd_kinds_quick) else 'thorough',
                         carriers=[r'R_<.*>::update', r'FullControlBaseT<.*>::changeTo'], case_key='%s/update/cfg=%d/issuer=%d/%s/dest=%d' % (m.name, c, i, KIND_NAMES[k], d), **base)
         for e in ('step_order_update', 'step_order_react', 'step_order_query'):
@@ -363,6 +366,21 @@ for tu, defs, entries, uw in (('tier_a/tasklist.cpp', {'CAP': 3}, ('proof_emplac
                               ('tier_a/random.cpp', {}, ('proof_x256plus', 'proof_uniform'), 6), ('tier_a/arrays.cpp', {'CAP': 2, 'CAP2': 3}, ('proof_da_bulk',), 6)):
     for e in entries:
         job(id='C15.dev.%s.%s' % (tu.split('/')[1][:-4], e[6:]), tu=tu, defs=defs, entry=e, props=['C15'], flavour='dev', count_all_as='C15', unwind=uw, unwindset={'verif_havoc.0': 4096}, objbits=10, carriers=[], case_key='dev flavour/%s/%s' % (tu, e))
+
+# ------------------------------------------------------------------ C17: identifiers and structural metadata, per shape of a named family (+ seeded random shapes)
+import os as _os, sys as _sys
+_sys.path.insert(0, _os.path.join(_os.path.dirname(_os.path.dirname(_os.path.abspath(__file__))), 'tools'))
+import shapes as _shapes
+try: _seed = int(_os.environ.get('VERIF_SEED', '1') or 1)
+except ValueError: _seed = 1
+for _name, _shape, _tier in _shapes.family(_seed):
+    _spec = _shapes.Spec(_shape)
+    _ns = len(_spec.states)
+    for _e in ('proof_shape_tables', 'proof_shape_dispatch'):
+        job(id='C17.%s.%s' % (_name, _e[12:]), tu='tier_d/shape.cpp', defs=_spec.defines(), entry=_e, props=['C17'] + (['C11'] if _tier == 'quick' and _ns <= 12 else []), quick_for=['C17'], tier=_tier,
+            unwind=max(_ns, 2 * _spec.prongs, 8 * _spec.units) + 3, objbits=12, timeout=900,
+            carriers=[r'S_<.*>::deepRegister', r'C_<.*>::deepRegister|O_<.*>::deepRegister', r'RF_<.*>::stateId<'] if _e == 'proof_shape_tables' else [r'R_<.*>::immediateChangeTo|R_<.*>::changeTo', r'RegistryT<.*>::isActive'],
+            case_key='shape %s = %s' % (_name, _spec.text()))
 
 # ------------------------------------------------------------------ quick-tier selection per property (every job stays in the thorough tier of all its properties)
 # (regex over job id, properties for which the job is part of the QUICK check); first match wins; jobs not matched keep their own quick_for
